@@ -153,6 +153,7 @@ static std::vector<Hist> histories(){
         if (d == 2){
             addh(0, "wavelet:o1:2d:fds-stable", "fam=wavelet;rule=wavelet;d=2;o=1;depth=0;type=level;order=1", "load:3 refsurp:1,3,0 load:3 @quad refsurp:1,4,0 load:3 refsurp:1,1,-1");
             addh(0, "wavelet:o1:2d:classic", "fam=wavelet;rule=wavelet;d=2;o=2;depth=1;type=level;order=1", "load:3 @batch:20 refsurp:1,0,-1 load:3 @hsparse:20 @hdense:10 @interp @integrate @diff @inth");
+            addh(0, "wavelet:o1:2d:limits", "fam=wavelet;rule=wavelet;d=2;o=1;depth=1;type=level;order=1;lim=3,2", "load:3 refsurp:1,0,-1 load:3 refsurp:0,0,-1,0,4 load:3 refsurp:1,3,-1 @batch:20"); // the level-limited copy of the candidate collection
             addh(1, "wavelet:o1:2d:direction", "fam=wavelet;rule=wavelet;d=2;o=1;depth=1;type=level;order=1", "load:3 refsurp:1,2,0 load:3 @batch:20");
             addh(1, "wavelet:o3:2d:classic", "fam=wavelet;rule=wavelet;d=2;o=1;depth=0;type=level;order=3", "load:3 @batch:20 refsurp:1,0,-1 load:3 @hsparse:20 @interp");
             addh(1, "wavelet:o1:2d:construct", "fam=wavelet;rule=wavelet;d=2;o=1;depth=0;type=level;order=1", "load:3 begin cand:0,0 deliver:5,0 deliver:1,1 cand:1,3 deliver:0,0 finish @batch:20 merge @copy @diffw");
